@@ -56,8 +56,23 @@ pub fn gen_c12(out: &mut Out, seed: u64, thorough: bool) {
         let mut case = base_case(&mut rng, pt, sw, sh, w, h);
         case.crop = if l == 0 && t == 0 && w == sw && h == sh && rng.chance(1, 2) { CropSpec::None } else { CropSpec::Box(l as f64, t as f64, w as f64, h as f64) };
         case.dynamic = rng.chance(1, 3);
-        let got = run_case(&case, 0xA5);
-        emit(out, &case, 0xA5, &got, " check=copy", "same-size");
+        // float types: zeros of both signs copied over a destination that already holds (positive) zeros -
+        // an exact copy preserves the sign bit although -0.0 == 0.0
+        let mut fill = 0xA5u8;
+        if pt_kind(pt) == Kind::F32 && rng.chance(1, 2) {
+            for v in case.sbuf.iter_mut() {
+                *v = match rng.below(8) {
+                    0 => 0x3f80_0000,
+                    1 | 2 | 3 => 0x8000_0000,
+                    _ => 0,
+                };
+            }
+            // some rows entirely of signed zeros
+            fill = 0x00;
+            out.count("same-size:signed-zeros");
+        }
+        let got = run_case(&case, fill);
+        emit(out, &case, fill, &got, " check=copy", "same-size");
         // only one dimension matches: no resampling along it (judged through the model, which computes no
         // coefficients for that dimension)
         if rng.chance(1, 3) {
@@ -81,6 +96,64 @@ pub fn gen_c12(out: &mut Out, seed: u64, thorough: bool) {
         cn.alg = AlgSpec::nearest();
         let got_n = run_case(&cn, 0xA5);
         emit(out, &case, 0xA5, &got, &format!(" check=same2 gotB={}", got_n), "ss-intermediate-same-size");
+    }
+}
+
+// ------------------------------------------------------------------------------------------------ C01 (SuperSampling)
+/// SuperSampling against the pipeline it documents: Nearest into an intermediate image of
+/// round(crop_w / factor) x round(crop_h / factor), factor = min(crop_w / dst_w, crop_h / dst_h) / multiplicity (only when
+/// factor > 1.2), then Convolution with the same filter.  Elongated crops of both orientations, both axes as the less
+/// reduced one.  The two results must be identical (`check=same2`); the first is also compared with the model.
+pub fn gen_ss_documented(out: &mut Out, rng: &mut Rng, count: usize) {
+    let mut done = 0;
+    let mut guard = 0;
+    while done < count && guard < count * 20 {
+        guard += 1;
+        let pt = ALL_TYPES[guard % 13];
+        let portrait = rng.chance(1, 2);
+        let short = rng.range(20, 110) as u32;
+        let long = (short as f64 * (1.3 + 2.7 * rng.f64_unit())) as u32;
+        let (sw, sh) = if portrait { (short, long) } else { (long, short) };
+        let m = rng.range(1, 3) as u8;
+        // destination: reduce by 3 .. 12, the two axes by slightly different ratios
+        let r = 3.0 + 9.0 * rng.f64_unit();
+        let skew = 0.85 + 0.3 * rng.f64_unit();
+        let dw = ((sw as f64 / r).round() as u32).max(1);
+        let dh = ((sh as f64 / (r * skew)).round() as u32).max(1);
+        let (cw, ch) = (sw as f64, sh as f64);
+        let factor = (cw / dw as f64).min(ch / dh as f64) / m as f64;
+        if !(factor > 1.2) {
+            continue;
+        }
+        let tw = (cw / factor).round() as u32;
+        let th = (ch / factor).round() as u32;
+        if tw == 0 || th == 0 || (tw == dw && th == dh) {
+            continue;
+        }
+        let fi = rng.below(7) as usize;
+        let mut case = base_case(rng, pt, sw, sh, dw, dh);
+        case.alg = AlgSpec::ss(fi, m);
+        case.alpha = false;
+        case.dynamic = false;
+        let got = run_case(&case, 0xA5);
+        // the documented pipeline through the public API
+        let mut c1 = case.clone();
+        c1.alg = AlgSpec::nearest();
+        c1.dshape = plain(tw, th);
+        let g1 = run_case(&c1, 0xA5);
+        let got_b = match logical(&c1, &g1) {
+            Some(tmp) => {
+                let mut c2 = case.clone();
+                c2.alg = AlgSpec::conv(fi);
+                c2.sshape = plain(tw, th);
+                c2.sbuf = tmp;
+                run_case(&c2, 0xA5)
+            }
+            None => format!("nearest-step:{}", g1.chars().take(60).collect::<String>()),
+        };
+        out.count(&format!("ss-documented:{}:{}", if portrait { "portrait" } else { "landscape" }, if (cw / dw as f64) < (ch / dh as f64) { "width-less-reduced" } else { "height-less-reduced" }));
+        emit(out, &case, 0xA5, &got, &format!(" check=same2 gotB={}", got_b), "ss-documented-pipeline");
+        done += 1;
     }
 }
 
